@@ -65,6 +65,34 @@ class C09(Prop):
             if a != str(s):
                 ctx.violate("crc:" + " ".join(map(str, m))[:80], f"CRC16 of {m[:8]}... (len {len(m)}) = {a}, M17 CRC is {s}",
                             {"stream": "crc", "ops": ["crc " + " ".join(map(str, m)), "spec_crc " + " ".join(map(str, m))], "impl": a, "spec": s})
+        # configurations: other CRC16<> instantiations live in the same process (m17-demod has CRC16<0x1021,0xFFFF> next to the M17 one)
+        # and may run first; the M17 engine must be unaffected (shared statics, caches keyed too coarsely, ...)
+        def gen_crc(m, poly, init):
+            r = init
+            for b in m:
+                for i in range(8):
+                    top = r & 0x8000
+                    r = (r << 1) & 0xFFFF
+                    if bool(top) != bool((b >> (7 - i)) & 1):
+                        r ^= poly
+            return r
+        params = {0: (0x1021, 0xFFFF), 1: (0x8005, 0x0000), 2: (0x5935, 0x0000)}
+        mixed, want = [], []
+        for j, m in enumerate(msgs[190:190 + (300 if quick else 3000)]):
+            which = j % 3
+            mixed.append(f"crc_other {which} " + " ".join(map(str, m))); want.append(gen_crc(m, *params[which]))
+            mixed.append("crc " + " ".join(map(str, m))); want.append(spec_crc(m))
+        outm = ctx.run_impl(exe, mixed, "crc-mixed")          # a fresh process: the first engine used has another polynomial
+        for ln, a, w in zip(mixed, outm, want):
+            ctx.evaluations += 1
+            ctx.stat("mixed:" + ln.split()[0])
+            if a != str(w) and not ln.startswith("crc "):
+                ctx.stat("mixed:other-instantiation-differs-from-reference(outside C09)")
+            if a != str(w) and ln.startswith("crc "):
+                i = mixed.index(ln)
+                ctx.violate("crc-mixed:" + ln.split()[0], f"with several CRC16<> instantiations used in one process, `{ln[:60]}` = {a}, expected {w}",
+                            {"stream": "crc-mixed", "ops": mixed[:i + 1][-6:], "impl": a, "expected": w})
+                break
         # message ++ crc bytes checks to zero on the implementation
         chk = []
         for m, b in zip(msgs[:500], implb):
